@@ -47,3 +47,74 @@ def first_diff(f1, f2):
             if x != y:
                 return i, x.strip(), y.strip()
     return None
+
+
+def tb_exe():
+    return vlib.build_verilated("tb_run", ["verilog/hex_pkg.sv", "verilog/hex.sv", "verilog/processor.sv", "verilog/memory.sv"], "hex", "tb_run.cpp",
+                                prefix="Vhex_pkg", vflags=["--trace"])
+
+
+def image_words(binpath):
+    import struct
+    b = open(binpath, "rb").read()
+    hdr = struct.unpack('<I', b[:4])[0]
+    ws = []
+    for k in range(hdr):
+        w = struct.unpack('<i', b[4 + 4 * k: 8 + 4 * k])[0]
+        if w:
+            ws.append([k, w])
+    return hdr, ws
+
+
+def tb_run(exe, cases, d, tag="tb"):
+    cf = os.path.join(d, tag + ".cases"); of = os.path.join(d, tag + ".out")
+    vlib.write_ndjson(cf, cases)
+    wd = os.path.join(d, tag + ".wd"); os.makedirs(wd, exist_ok=True)
+    p = vlib.sh([exe, cf, of], cwd=wd, timeout=7200)
+    res = vlib.read_ndjson(of)
+    if p.returncode != 0 or len(res) != len(cases):
+        raise vlib.MachineryError("tb_run failed (%d), %d of %d results: %s" % (p.returncode, len(res), len(cases), p.stderr.decode(errors='replace')[-500:]))
+    return res
+
+
+def well_defined_images(d, tier, rng, sexe, want_x=True):
+    """[(id, binary path, input bytes, steps)] : repository programs and generated X / assembly programs whose HexISA run
+    exits and never loads a word outside the image that it has not stored (decided by spec/SimV)"""
+    import corpus, xlib, asmlib, struct, json
+    xexe = vlib.build_cxx("x_case", ["x_case.cpp"])
+    cands = []
+    for pid, binp, inp in corpus.repo_binaries(d, with_xhexb=False):
+        cands.append((pid, binp, inp))
+    base = vlib.seed() * 100000 + 60000
+    nrand = 60 if tier == "quick" else 1500
+    progs = xlib.template_programs(rng) + [('rand%d' % (base + s), xlib.random_program(base + s)) for s in range(nrand)]
+    xcases = xlib.make_cases(progs, rng)
+    xres = xlib.run_cases(xexe, xcases, d, tag="wdx", flags="b")
+    bd = os.path.join(d, "wd_bins"); os.makedirs(bd, exist_ok=True)
+    for k, (c, r) in enumerate(zip(xcases, xres)):
+        if r['status'] == 'exit' and 'img' in r and r['steps'] <= (15000 if tier == "quick" else 150000):
+            fn = os.path.join(bd, "x%d.bin" % k)
+            open(fn, "wb").write(struct.pack('<I', r['hdr']) + bytes(r['img']) + bytes(r['dbg']))
+            cands.append((c['id'], fn, bytes(c['input'])))
+    # ask the specification which of them stay inside the precondition
+    simcases = [{'id': str(k), 'bin': open(b, 'rb').read().hex(), 'input': inp.hex(), 'maxcycles': 0, 'trace': 0, 'dirty': -1, 'maxsteps': 400000} for k, (i, b, inp) in enumerate(cands)]
+    cf = os.path.join(d, "wd.cases"); of = os.path.join(d, "wd.out")
+    vlib.write_ndjson(cf, simcases)
+    sd = os.path.join(d, "wdscratch"); os.makedirs(sd, exist_ok=True)
+    vlib.sh([sexe, cf, of, sd], check=True, timeout=7200)
+    sres = vlib.read_ndjson(of)
+    recs = []
+    limit = 20000 if tier == "quick" else 200000
+    keep = [(c, r) for c, r in zip(cands, sres) if r['status'] == 'exit' and r['steps'] <= limit]
+    cands = [c for c, r in keep]; sres = [r for c, r in keep]
+    for (i, b, inp), r in zip(cands, sres):
+        hdr, ws = image_words(b)
+        recs.append({'id': i, 'img': ws, 'imgwords': hdr, 'input': list(inp), 'traced': False,
+                     'obs': {'status': r['status'], 'ret': r['ret'], 'steps': r['steps'], 'rd': r['rd'], 'fout': r['fout'],
+                             'out': [[0, x] for x in bytes.fromhex(r['text'])], 'calls': []}})
+    verd = xlib.validate(recs, d, "wdv", module="SimV", cfg="SimV.cfg")
+    out = []
+    for (i, b, inp), r, v in zip(cands, sres, verd):
+        if v['v'] == 'ok' and v['st'] == 'exit' and not v['unw']:
+            out.append((i, b, inp, r))
+    return out, len(cands)
